@@ -423,7 +423,10 @@ func (s *JavaFullListener) EnterCreator(ctx *parser.CreatorContext) {
 
 	for _, identifier := range allIdentifiers {
 		createdName := identifier.GetText()
-		localVars[variableName] = createdName
+		// an assignment gives a type only to a name that has no declaration of its own
+		if localVars[variableName] == "" && formalParameters[variableName] == "" && mapFields[variableName] == "" {
+			localVars[variableName] = createdName
+		}
 
 		buildCreatorCall(createdName, ctx)
 
